@@ -1,4 +1,5 @@
 #![allow(dead_code)]
+#![feature(alloc_error_hook)]
 //! cxcheck library: shared by the `cxcheck` binary (fork-per-case executor E1)
 //! and the cargo-fuzz target (in-process executor E2).
 
